@@ -35,7 +35,7 @@ pub struct OrderCase {
 fn strategy(t: Tier) -> BoxedStrategy<OrderCase> {
     gen::kind_any()
         .prop_flat_map(move |kind| {
-            (gen::cfg(kind, t.pick(600, 2000)), gen::engine_for(kind), gen::data_spec(), gen::recv_spec(), 0u8..5, any::<u64>(), any::<u16>(), any::<u16>()).prop_map(
+            (gen::cfg(kind, t.pick(1000, 2000)), gen::engine_for(kind), gen::data_spec(), gen::recv_spec(), 0u8..5, any::<u64>(), any::<u16>(), any::<u16>()).prop_map(
                 move |((cfg, _), eng, data, recv, order2, seed2, surplus_raw, companions_raw)| OrderCase { kind, eng, cfg, data, recv, order2, seed2, surplus_raw, companions_raw },
             )
         })
@@ -84,7 +84,28 @@ fn check(c: &OrderCase, st: &mut Stats) -> CheckResult {
     let mut withheld: Vec<Given> = (0..k).filter(|&i| !have_o[i]).map(|i| Given { rec: false, idx: i }).chain((0..r).filter(|&i| !have_r[i]).map(|i| Given { rec: true, idx: i })).collect();
     let mut rng = Xs::new(c.seed2 ^ 0x50B);
     rng.shuffle(&mut withheld);
-    let extra = gen::idx_map(c.surplus_raw, withheld.len());
+    // surplus: a random number of withheld shards, or (a quarter of the cases) only isolated outliers:
+    // the highest-index withheld recovery shard and/or the lowest-index withheld shard
+    let extra = if c.surplus_raw % 4 == 0 && !withheld.is_empty() {
+        let hi = withheld.iter().enumerate().filter(|(_, g)| g.rec).max_by_key(|(_, g)| g.idx).map(|(i, _)| i);
+        let lo = withheld.iter().enumerate().min_by_key(|(_, g)| (g.rec, g.idx)).map(|(i, _)| i);
+        let mut front = 0;
+        if let Some(i) = hi {
+            withheld.swap(front, i);
+            front += 1;
+        }
+        if c.surplus_raw % 8 == 0 {
+            if let Some(i) = lo {
+                if i >= front {
+                    withheld.swap(front, i);
+                    front += 1;
+                }
+            }
+        }
+        front
+    } else {
+        gen::idx_map(c.surplus_raw, withheld.len())
+    };
     let mut sup: Vec<Given> = s1.clone();
     sup.extend_from_slice(&withheld[..extra]);
     gen::order_apply(&mut sup, c.order2, c.seed2 ^ 1);
